@@ -30,6 +30,7 @@ func Fetch() string      { return "f" }
 func Put(s string)       {}
 func PutData(s string)   {}
 func Store(s string)     {}
+func PutTag(tag, s string) {}
 
 func (t T) Get() string       { return t.V }
 func (t *T) GetData() string  { return t.V }
@@ -39,17 +40,20 @@ func (t *T) PutData(s string) { t.V = s }
 type I interface {
 	Get() string
 	Put(s string)
+	PutTag(tag, s string)
 }
 
 type U struct{ V string }
 
 func (u U) Get() string  { return u.V }
 func (u U) Put(s string) {}
+func (u U) PutTag(tag, s string) {}
 
 type W struct{ V string }
 
 func (w *W) Get() string  { return w.V }
 func (w *W) Put(s string) { w.V = s }
+func (w *W) PutTag(tag, s string) { w.V = s }
 `
 
 type c04Callee struct{ Pkg, Name string }
@@ -60,15 +64,16 @@ type c04Probe struct {
 	Form    string      `json:"form"`
 	Callees []c04Callee `json:"callees"`
 	Context string      `json:"context"`
-	LineA   int         `json:"line_a"` // source probes: the probed call; sink probes: the sourceP() call
-	LineB   int         `json:"line_b"` // source probes: the private sink call; sink probes: the probed call
+	LineA   int         `json:"line_a"`        // source probes: the probed call; sink probes: the sourceP() call
+	LineB   int         `json:"line_b"`        // source probes: the private sink call; sink probes: the probed call
+	Tag     string      `json:"tag,omitempty"` // string constant passed as first argument of a tagged sink (seen by value-match)
 }
 
 type c04Case struct {
 	Main   string     `json:"-"`
 	Probes []c04Probe `json:"probes"`
 	Spec   struct {
-		Package, Method, Context string
+		Package, Method, Context, ValueMatch string
 	} `json:"spec"`
 	Kind string `json:"kind"`
 }
@@ -77,7 +82,7 @@ const c04Mod = "example.com/m"
 const c04AlphaPath = "example.com/m/pkg/alpha"
 
 var c04SourceForms = []string{"direct-alpha", "direct-main", "method-value-recv", "method-ptr-recv", "iface", "funcvalue", "methodvalue", "closure", "direct-fetch", "direct-main2"}
-var c04SinkForms = []string{"direct-alpha", "direct-main", "method-value-recv", "method-ptr-recv", "iface", "funcvalue", "methodvalue", "closure", "defer", "direct-store"}
+var c04SinkForms = []string{"direct-alpha", "direct-main", "method-value-recv", "method-ptr-recv", "iface", "funcvalue", "methodvalue", "closure", "defer", "direct-store", "tag-direct", "tag-iface", "tag-method"}
 
 // c04Gen draws the probe sites and the specification.
 func c04Gen(t *rapid.T, off map[string]bool) *c04Case {
@@ -236,6 +241,23 @@ func c04Gen(t *rapid.T, off map[string]bool) *c04Case {
 			case "defer":
 				b = add("defer alpha.Put(" + v + ")")
 				p.Callees = []c04Callee{{c04AlphaPath, "Put"}}
+			case "tag-direct":
+				p.Tag = []string{"QZ1", "QZ2"}[gogen.Uniform(t, 2, "tag")]
+				b = add(fmt.Sprintf("alpha.PutTag(%q, %s)", p.Tag, v))
+				p.Callees = []c04Callee{{c04AlphaPath, "PutTag"}}
+			case "tag-iface":
+				p.Tag = []string{"QZ1", "QZ2"}[gogen.Uniform(t, 2, "tag")]
+				add(fmt.Sprintf("var i%d alpha.I = alpha.U{V: \"x\"}", k))
+				add("if flag {")
+				add(fmt.Sprintf("\ti%d = &alpha.W{V: \"y\"}", k))
+				add("}")
+				b = add(fmt.Sprintf("i%d.PutTag(%q, %s)", k, p.Tag, v))
+				p.Callees = []c04Callee{{c04AlphaPath, "PutTag"}}
+			case "tag-method":
+				p.Tag = []string{"QZ1", "QZ2"}[gogen.Uniform(t, 2, "tag")]
+				add(fmt.Sprintf("w%d := &alpha.W{V: \"x\"}", k))
+				b = add(fmt.Sprintf("w%d.PutTag(%q, %s)", k, p.Tag, v))
+				p.Callees = []c04Callee{{c04AlphaPath, "PutTag"}}
 			}
 			sites = append(sites, site{p, body, a, b})
 		}
@@ -285,7 +307,11 @@ func c04Gen(t *rapid.T, off map[string]bool) *c04Case {
 	if c.Kind == "source" {
 		mt = []string{"", "Get", "^Get$", "^Get", "Data$", "etD", "^(Get|Fetch)$", "^getData2$", "Fetch", "^[A-Z]"}
 	} else {
-		mt = []string{"", "Put", "^Put$", "^Put", "Data$", "utD", "^(Put|Store)$", "^putData2$", "Store", "^[A-Z]"}
+		mt = []string{"", "Put", "^Put$", "^Put", "Data$", "utD", "^(Put|Store)$", "^putData2$", "Store", "^[A-Z]", "Tag$", "^PutTag$"}
+		// value-match: a pattern over the call as the tool prints it (callee and arguments; string constants appear
+		// literally, everything else as a register name). The patterns only use "QZ", which occurs nowhere else.
+		vm := []string{"", "", "", "QZ1", "QZ[12]", "QZ3", "^QZ"}
+		c.Spec.ValueMatch = vm[gogen.Uniform(t, len(vm), "vmre")]
 	}
 	cx := []string{"", "", "", "main$", "helperA", "main\\$1$", "^example\\.com/m\\.main"}
 	c.Spec.Package = pk[gogen.Uniform(t, len(pk), "pkgre")]
@@ -338,6 +364,9 @@ func c04Config(c *c04Case) string {
 		if c.Spec.Context != "" {
 			fmt.Fprintf(&b, "        context: %q\n", c.Spec.Context)
 		}
+		if c.Spec.ValueMatch != "" {
+			fmt.Fprintf(&b, "        value-match: %q\n", c.Spec.ValueMatch)
+		}
 	}
 	if c.Kind == "source" {
 		b.WriteString("    sources:\n")
@@ -360,6 +389,17 @@ func c04Expected(c *c04Case, p c04Probe) bool {
 	}
 	if !match(c.Spec.Context, p.Context) {
 		return false
+	}
+	if c.Spec.ValueMatch != "" {
+		// the matched text is the printed call; of the things the pattern alphabet can hit it contains only the tag
+		// constant, printed as "QZ1":string
+		text := ""
+		if p.Tag != "" {
+			text = fmt.Sprintf("PutTag(%q:string, t0)", p.Tag)
+		}
+		if !regexp.MustCompile(c.Spec.ValueMatch).MatchString(text) {
+			return false
+		}
 	}
 	for _, cal := range p.Callees {
 		if match(c.Spec.Package, cal.Pkg) && match(c.Spec.Method, cal.Name) {
